@@ -12,6 +12,8 @@ from harness.refmodel import freeze, ref_dtype, same
 S = load()
 
 PROPERTY = "C19"
+LEVEL_TEXT = "Round-trip exploration (generated cell texts -> csv.writer -> read_csv) and text fuzzing (Hypothesis; atheris in the thorough tier) with csv.reader as lexing reference and the statement's cell rule as oracle."
+LEVEL_NOTE = 'If csv.reader raises csv.Error any exception from read_csv is accepted.'
 DESIGN_REF = "DESIGN.md §5 C19"
 ENGINE = "fuzz"
 TECHNIQUE = "round-trip property-based testing (generated cell texts -> csv.writer -> read_csv -> compare with the cell-level reference) + text fuzzing (Hypothesis; atheris coverage-guided campaign in the thorough tier) with csv.reader as lexing reference"
